@@ -50,6 +50,9 @@ THEOREMS = [NS + n for n in [
     "generator_next_name_restarts",
     "generator_next_name_snapshot_witness",
     "process_wide_state_ok",
+    "keyed_sort_perm_invariant",
+    "keyed_sort_needs_injective_key",
+    "sort_calls_ok",
     "tsort_inner_order_independent",
     "absorb_order_independent",
     "absorbed_superset_order_independent",
@@ -314,6 +317,39 @@ def dispatch_fill_shape(chk=None):
     return out
 
 
+SORT_FILES = ["sqlglot/helper.py", "sqlglot/optimizer/simplify.py", "sqlglot/optimizer/optimize_joins.py",
+              "sqlglot/optimizer/eliminate_subqueries.py", "sqlglot/optimizer/normalize.py", "sqlglot/optimizer/merge_subqueries.py",
+              "sqlglot/optimizer/eliminate_joins.py", "sqlglot/optimizer/scope.py"]
+
+
+def sort_calls():
+    """every sorted(…) / .sort(…) / min / max with a key in the modules whose algorithms order sets: (file, function, what is
+    sorted, key= argument or "-", reverse= or "-").  A key that is not injective on the sorted elements lets ties fall back
+    to the (hash-dependent) arrival order — `Properties.C15.keyed_sort_needs_injective_key`."""
+    out = []
+    for rel in SORT_FILES:
+        path = os.path.join(REPO, rel)
+        if not os.path.exists(path):
+            continue
+        t = ast.parse(open(path, encoding="utf-8").read())
+
+        def walk(node, prefix):
+            for ch in ast.iter_child_nodes(node):
+                if isinstance(ch, (ast.FunctionDef, ast.AsyncFunctionDef, ast.ClassDef)):
+                    walk(ch, prefix + ch.name + ".")
+                    continue
+                if isinstance(ch, ast.Call):
+                    f = ch.func
+                    nm = f.id if isinstance(f, ast.Name) else f.attr if isinstance(f, ast.Attribute) else ""
+                    kw = {k.arg: ast.unparse(k.value) for k in ch.keywords if k.arg}
+                    if nm == "sorted" or (nm == "sort" and isinstance(f, ast.Attribute)) or (nm in ("min", "max") and "key" in kw):
+                        what = ast.unparse(ch.args[0]) if ch.args else (ast.unparse(f.value) if isinstance(f, ast.Attribute) else "?")
+                        out.append((rel, prefix.rstrip(".") or "<module>", nm + "(" + what[:60] + ")", kw.get("key", "-"), kw.get("reverse", "-")))
+                walk(ch, prefix)
+        walk(t, "")
+    return out
+
+
 def translate(chk) -> str:
     r = extract(chk)
     chk.cov["state_fields"] = {k: len(v) for k, v in r.items()}
@@ -327,6 +363,12 @@ def translate(chk) -> str:
     L.append("def dialectInit : List (String × String) := " + lean_list("(" + lean_str(a) + ", " + lean_str(b) + ")" for a, b in dinit))
     L.append("def dialectWritten : List String := " + lean_list(lean_str(a) for a in dwritten))
     L.append("def dispatchCacheFill : List String := " + lean_list(lean_str(a) for a in dispatch_fill_shape(chk)))
+    sc = sort_calls()
+    chk.cov["sort_calls"] = len(sc)
+    L.append("/-- (file, function, call, key=, reverse=): the sort calls of the modules whose algorithms put sets into an order -/")
+    L.append("def sortCalls : List (String × String × String × String × String) := [")
+    L += ["  (" + ", ".join(lean_str(x) for x in e) + ")" + ("," if i + 1 < len(sc) else "") for i, e in enumerate(sc)]
+    L.append("]")
     pw = process_wide_state()
     chk.cov["process_wide_state_sites"] = len(pw)
     L.append("/-- (file, name, kind, writer): state shared by the whole process that code running after import writes -/")
@@ -696,6 +738,33 @@ def build_family(chk, n_var):
     return fam
 
 
+def build_tie_family(chk):
+    """inputs in which NAMES that get ordered differ only by case / quoting: join aliases (optimize_joins → tsort), CTE and
+    derived-table names (eliminate_subqueries), connector operands (uniq_sort), tsort nodes.  A sort whose key lets such names
+    tie falls back to set iteration order, i.e. to the hash seed — these few cases are run under a dozen seeds."""
+    rng = chk.rng
+    pairs = [("T", "t"), ("Ab", "ab"), ("Q", "q"), ("Zz", "zZ")]
+    cases = []
+    for i, (u, l) in enumerate(pairs):
+        U = f'"{u}"'
+        L = f'"{l}"' if l != l.lower() else l
+        qs = [
+            f"SELECT x.a FROM x JOIN y AS {U} ON x.a = {U}.a JOIN z AS {L} ON x.a = {L}.a",
+            f"SELECT x.a FROM x JOIN z AS {L} ON x.a = {L}.a JOIN y AS {U} ON x.a = {U}.a",
+            f"SELECT * FROM x, y AS {U}, z AS {L} WHERE x.a = {L}.a AND {L}.a = {U}.a",
+            f"WITH {U} AS (SELECT a FROM x), {L} AS (SELECT a FROM y) SELECT {U}.a, {L}.a AS b FROM {U} JOIN {L} ON {U}.a = {L}.a",
+            f"SELECT {U}.a, {L}.a AS b FROM (SELECT a FROM x) AS {U} JOIN (SELECT a FROM y) AS {L} ON {U}.a = {L}.a JOIN (SELECT a FROM x) AS w ON w.a = {L}.a",
+        ]
+        for j, q in enumerate(qs):
+            cases.append([f"tie{i}o{j}", "optimize", {"sql": q}])
+        cases.append([f"tie{i}q", "qualify", {"sql": qs[2]}])
+        cases.append([f"tie{i}s", "simplify", {"sql": f"x.{U} = 1 AND x.{L} = 1 AND {U}.a = {L}.a OR '{u}' = x.c OR '{l}' = x.c"}])
+        dag = [[u, []], [l, []], ["x", [u, l]], [u + "2", [l]], [l + "2", [u]]]
+        rng.shuffle(dag)
+        cases.append([f"tie{i}t", "tsort", {"dag": dag, "sql": "tsort " + " ".join(f"{k} <- {' '.join(v)} ;" for k, v in dag)}])
+    return cases
+
+
 def fresh_reference(cases, hashseed=0, width=8):
     """each case alone in a brand-new process"""
     ref = {}
@@ -975,6 +1044,24 @@ def search(chk, hints, budget_s):
                              {"kind": "sweep", "case": small, "original": by_id[cid][2]["sql"], "hashseeds": [configs[0][0], configs[first][0]],
                               "orders_differ": True, "outputs": [str(vals[0])[:300], str(vals[first])[:300]], "isolated_repro": bool(solo)},
                              {"op": op, "why": why})
+    # --- the tie family (names differing only by case / quoting) under a dozen hash seeds
+    tie = build_tie_family(chk)
+    tie_seeds = list(range(chk.pick(12, 24)))
+    tdiffs, touts = sweep(chk, tie, [(hs, list(range(len(tie)))) for hs in tie_seeds])
+    for c in tie:
+        chk.count("tie-family:" + c[1])
+        chk.case(("tie", c[1], c[2]["sql"]), nontrivial=not str(touts[0].get(c[0], "")).startswith("EXC"))
+    tie_by_id = {c[0]: c for c in tie}
+    for cid, vals in list(tdiffs.items())[:3]:
+        c = tie_by_id[cid]
+        first = next(i for i, v in enumerate(vals) if v != vals[0])
+        small = c if c[1] == "tsort" else minimise_sweep_diff(c, [tie_seeds[0], tie_seeds[first]], budget_s=8.0)
+        split = {str(v)[:60]: [tie_seeds[i] for i, w in enumerate(vals) if w == v] for v in set(vals)}
+        chk.report_violation(f"nondeterministic:{c[1]}:hash-seed:{abstract_sql(small[2]['sql']) if c[1] != 'tsort' else 'names-differing-by-case'}",
+                             f"{c[1]} output differs between PYTHONHASHSEED {tie_seeds[0]} and {tie_seeds[first]} (names differing only by case / quoting)",
+                             {"kind": "sweep", "case": small, "original": c[2]["sql"], "hashseeds": [tie_seeds[0], tie_seeds[first]],
+                              "outputs": [str(vals[0])[:300], str(vals[first])[:300]], "seeds_by_output": split, "isolated_repro": True},
+                             {"op": c[1], "why": "hash-seed"})
     # --- every family case against a brand-new process: what ran earlier in the same process must not matter
     ref = fresh_reference(family, configs[0][0])
     hist_found = 0
@@ -1009,7 +1096,8 @@ def search(chk, hints, budget_s):
             break
     n, found = reuse_checks(chk, max(4.0, budget_s - (time.time() - t0)))
     chk.search_info = {"ran": True, "budget_s": budget_s, "sweep_cases": len(cases), "subprocesses": len(configs),
-                       "family_cases_vs_fresh_process": len(family), "history_differences": hist_found,
+                       "family_cases_vs_fresh_process": len(family), "tie_family_cases": len(tie), "tie_family_hashseeds": tie_seeds,
+                       "tie_family_differences": len(tdiffs), "history_differences": hist_found,
                        "hashseeds": [c[0] for c in configs], "differing_cases": len(diffs), "reuse_calls": n, "reuse_differences": found,
                        "oracle": "byte-identical outputs across PYTHONHASHSEED values and processing orders; reused Parser/Tokenizer/Generator/"
                                  "Dialect/MappingSchema answers equal a fresh object's (also after an exception in the middle of a call)"}
